@@ -33,6 +33,10 @@ Proof. split; [exact conc_table_wf_holds|split; [exact mapping_table_wf_holds|ex
 Theorem C12_callees : all_calls_ok = true.
 Proof. exact all_calls_ok_holds. Qed.
 
+(* the exported functions and methods of the package are exactly the six modelled entry points; Language is int *)
+Theorem C12_public_surface : exported_api_ok = true.
+Proof. exact exported_api_ok_holds. Qed.
+
 Print Assumptions C12_race_free.
 Print Assumptions C12_reads_own_map.
 Print Assumptions C12_source_facts.
